@@ -291,6 +291,14 @@ def run(ctx):
     import pskel as _pskel
     _pskel.rule_P_PRIM(ctx)
     _pskel.rule_P_SKELETON(ctx)
+    # naming-law lints over the modules this property lives in (sibling slips: truth<->budget, stamp<->punctuation, left<->right, swapped arguments)
+    import roles as _roles
+    _roles.rule_R_ROLE(ctx, modules=('api::data_structure::narsese_value', 'api::data_structure::narsese_options', 'api::conversion', 'enum_narsese::task', 'enum_narsese::sentence', 'lexical::task', 'lexical::sentence', 'conversion::string::impl_enum::parser', 'conversion::string::impl_lexical::parser', 'conversion::string::impl_enum::formatter', 'conversion::string::impl_lexical::formatter'))
+    _roles.rule_A_NAMES(ctx, modules=('api::data_structure::narsese_value', 'api::data_structure::narsese_options', 'api::conversion', 'enum_narsese::task', 'enum_narsese::sentence', 'lexical::task', 'lexical::sentence', 'conversion::string::impl_enum::parser', 'conversion::string::impl_lexical::parser', 'conversion::string::impl_enum::formatter', 'conversion::string::impl_lexical::formatter'))
+    _roles.rule_K_NAMES(ctx, only=("narsese_options",))
+    # every formatter function against its reviewed emission skeleton
+    import emit as _emit
+    _emit.rule_F_SKELETON_ALL(ctx)
     ctx.undecided = ["kind(parse(format(v))) = kind(v) for every value (runs into value-dependent parsing, see C01)"]
     ctx.assumptions = ["Vec::is_empty / matches! semantics of std"]
     ctx.trusted = ["rustc HIR/MIR", "mirfacts driver", "python rule layer"]
